@@ -341,3 +341,98 @@ def evaluate_model(reif, independents):
             return None
         pending = rest
     return None
+
+# ---- coherence of the model after convert_variable (shared by the C08 and C13 checks: "unit conversion" is one of the
+# edits both properties quantify over; ModelSM has no such operation, so this part is an oracle on the implementation) ----
+BQ_IS = ('http://biomodels.net/biology-qualifiers/', 'is')
+TERM_NS = 'http://example.org/term#'
+
+
+def conversion_coherence(case):
+    """-> list of (property, what, detail): after every conversion of the history (a) every query answers as a freshly
+    built model with the same variables and equations (C08), (b) ids are unique and every look-up by id / ontology term
+    returns the live carrier (C13).  Look-ups are also made BEFORE each conversion, so that caches are populated."""
+    import sympy
+    import cellmlmanip.model as M
+    from cellmlmanip.model import DataDirectionFlow
+    from cellmlmanip.rdf import create_rdf_node
+    from props import c06, c08
+    bad = []
+    try:
+        m, objs = build_model(case['spec'])
+    except Exception as e:
+        return [('harness', repr(e), {})]
+    terms = {}
+    for k, v in enumerate(objs):
+        if v.cmeta_id is not None:
+            terms[v.cmeta_id] = 't%d' % k
+            m.add_rdf('<rdf:RDF xmlns:rdf="http://www.w3.org/1999/02/22-rdf-syntax-ns#" xmlns:bqbiol="%s">'
+                      '<rdf:Description rdf:about="#%s"><bqbiol:is rdf:resource="%s%s"/></rdf:Description></rdf:RDF>'
+                      % (BQ_IS[0], v.cmeta_id, TERM_NS, terms[v.cmeta_id])) if False else \
+                m.rdf.add((create_rdf_node('#' + v.cmeta_id), create_rdf_node(BQ_IS), create_rdf_node((TERM_NS, terms[v.cmeta_id]))))
+
+    def lookups(j):
+        ids = {}
+        for v in m.variables():
+            c = v.cmeta_id
+            if c is None:
+                continue
+            if c in ids:
+                bad.append(('C13', 'after conversion %d two variables carry the cmeta id %r: %s and %s' % (j, c, ids[c].name, v.name),
+                            {'conv': j}))
+            ids[c] = v
+        for c, term in terms.items():
+            want = ids.get(c)
+            for how, f in (('get_variable_by_cmeta_id(%r)' % c, lambda: m.get_variable_by_cmeta_id(c)),
+                           ('get_variable_by_ontology_term(%s)' % term, lambda: m.get_variable_by_ontology_term((TERM_NS, term))),
+                           ('get_variables_by_rdf(is, %s)' % term, lambda: m.get_variables_by_rdf(BQ_IS, (TERM_NS, term)))):
+                try:
+                    got = f()
+                except Exception as e:
+                    bad.append(('C13', 'after conversion %d %s raises %r although %s carries the id'
+                                % (j, how, e, getattr(want, 'name', None)), {'conv': j}))
+                    continue
+                got = got[0] if isinstance(got, list) and len(got) == 1 else got
+                if got is not want:
+                    bad.append(('C13', 'after conversion %d %s returns %s (cmeta id %r), but the id is carried by %s'
+                                % (j, how, getattr(got, 'name', got), getattr(got, 'cmeta_id', None), getattr(want, 'name', None)),
+                                {'conv': j}))
+    lookups(-1)
+    cur = list(objs)
+    for j, (vi, ui, is_input, move) in enumerate(case['convs']):
+        reif = Reified(m, cur)
+        v = vi % len(cur)
+        vec = reif.vars[v][1]
+        fam = c06.family_of(vec) if vec is not None else None
+        if not fam:
+            break
+        target = m.units.get_unit(fam[ui % len(fam)])
+        lookups(j - 0.5)
+        try:
+            m.convert_variable(cur[v], target, DataDirectionFlow.INPUT if is_input else DataDirectionFlow.OUTPUT,
+                               move_annotations=bool(move))
+        except Exception:
+            break
+        cur = Reified(m, cur).objs
+        lookups(j)
+        # (a) fresh model with the same content
+        f = M.Model('m')
+        mp = {}
+        try:
+            for x in m.variables():
+                mp[x] = f.add_variable(x.name, 'dimensionless', initial_value=x.initial_value, cmeta_id=x.cmeta_id)
+            for eq in m.equations:
+                f.add_equation(sympy.Eq(eq.lhs.xreplace(mp), eq.rhs.xreplace(mp), evaluate=False))
+        except Exception as e:
+            bad.append(('C08', 'after conversion %d a fresh model cannot be built from the current variables and equations: %r'
+                        % (j, e), {'conv': j}))
+            continue
+        fo, co = c08.obs(f), c08.obs(m)
+        if fo != co:
+            diff = [k for k in fo if fo[k] != co[k]]
+            bad.append(('C08', 'after conversion %d (convert_variable) the model answers differently from a freshly built model '
+                        'with the same variables and equations: %s (current %r, fresh %r)'
+                        % (j, ', '.join(diff), co[diff[0]], fo[diff[0]]), {'conv': j, 'differs': diff}))
+        if len(bad) > 4:
+            break
+    return bad
